@@ -29,7 +29,7 @@ RULE = ("base token = generated signing plan (14 algs x key classes x compact/fl
         "swapped signatures, dropped protected member, shadowing unprotected alg, unprotected b64, flattened<->general), key "
         "substitution and alg=none variants, through every verification entry point (incl. extract+validate with another token extracted "
         "in between, a caller-supplied payload other than the signed one, and '+again': the same token verified a second time after the "
-        "application edited the object the first call returned; key given as key, key set with kid, callable or single-key set without kid). "
+        "application edited the object the first call returned; key given as key, key set with kid, callable or single-key set without kid; tokens that carry the b64 switch are also shown to the RFC 7515 and JWT entry points, which may refuse them but must not return anything but the signed payload). "
         "A (token, fault) pair is non-trivial "
         "when the fault changes an octet of the signing input, the signature, the signature list or the key; distinct = "
         "digest of (alg, serialization, b64, entry point, fault descriptor).")
